@@ -47,9 +47,25 @@ def mutant_cache_path(repo_hash, mid):
     return os.path.join(d, mid + '.json')
 
 
+def seeded_mutants(prop):
+    """The independently seeded changes (seeded/<id>/patch.diff) filed for this property, as self-test entries:
+    each must be reported by at least one rule (any rule: the rules that reported it when it was filed are
+    recorded in its meta.json and in the result matrix)."""
+    import glob
+    out = []
+    for d in sorted(glob.glob(os.path.join(VERIF, 'seeded', '*', 'meta.json'))):
+        meta = json.load(open(d))
+        if meta.get('property') != prop:
+            continue
+        out.append(dict(id='seeded-' + meta['id'], patch=os.path.join(os.path.dirname(d), 'patch.diff'), expect=list(meta.get('detected_by_rules') or ['?']),
+                        props=[prop], note=meta.get('needs_to_manifest', '')))
+    return out
+
+
 def run_mutants(prop, repo, seed):
     import catalogue
     ms = [m for m in catalogue.M if prop in m['props'] or (not m['props'] and not m['expect'])]
+    ms += seeded_mutants(prop)
     rh = extract.repo_hash(repo)
     todo, results = [], {}
     for m in ms:
